@@ -456,3 +456,4 @@ def run(facts, rep, tier):
     c01.rule_r8(facts, rep, rid="C07-R3d")
     rep.rule("C07-R6", "Single-line containers: no break inline (printed as a newline) is ever produced by the reader, so a heading's text stays on the heading's line.")
     rule_r6(facts, rep)
+    c01.rule_r12(facts, rep, rid="C07-R3e")
